@@ -548,6 +548,92 @@ func (g *Gen) stmt(sc *scope, labs []lab, loopDepth int, inLoop bool, ind string
 		b := block(g.list(sc, 1+r.Intn(3), inner, loopDepth, inLoop, in2), in2)
 		return []node{{fmt.Sprintf("L%d: %s", id, b.js), fmt.Sprintf("(JLabelled %d%%nat %s)", id, b.coq)}}
 	case k < 69:
+		switch r.Intn(8) {
+		case 0:
+			// a call / new / method call whose callee value is not callable: the arguments are evaluated (their
+			// host calls happen, an exception they throw wins) BEFORE the TypeError (11.2.2, 11.2.3)
+			g.Stats["call-noncallable"]++
+			a, b := g.num(sc, 1), g.num(sc, 1)
+			gv := []string{"g0", "g1", "g2"}[r.Intn(3)]
+			args := "[XLog " + a.coq + "; XLog " + b.coq + "]"
+			ajs := "log(" + a.js + "), log(" + b.js + ")"
+			if r.Intn(4) == 0 { // the second argument throws: that exception, not the TypeError
+				args = "[XLog " + a.coq + "; XCall (XVar " + cstr("nowhere") + ") []]"
+				ajs = "log(" + a.js + "), nowhere()"
+			}
+			var cjs, ccoq string
+			switch r.Intn(3) {
+			case 0:
+				cjs, ccoq = gv+"("+ajs+")", fmt.Sprintf("(XCall (XVar %s) %s)", cstr(gv), args)
+			case 1:
+				cjs, ccoq = "new "+gv+"("+ajs+")", fmt.Sprintf("(XNew (XVar %s) %s)", cstr(gv), args)
+			default:
+				cjs, ccoq = "w1.g0("+ajs+")", fmt.Sprintf("(XMCall (XVar %s) %s %s)", cstr("w1"), cstr("g0"), args)
+			}
+			return []node{{"try { " + cjs + "; } catch (ex) { log(ex); }",
+				fmt.Sprintf("(JTry [JExpr %s] (Some (%s, [JExpr (XLog (XVar %s))])) None)", ccoq, cstr("ex"), cstr("ex"))}}
+		case 2:
+			// return inside try with a finally (and catch) that changes what the returned expression read: the value is
+			// fixed when the return statement is evaluated (12.9 GetValue), the finally block runs afterwards; an
+			// exception raised by the returned expression itself is raised inside the try (caught by its catch)
+			g.Stats["return-try-finally"]++
+			a := g.num(sc, 1)
+			switch r.Intn(3) {
+			case 0:
+				return []node{{"log(RF(" + a.js + "));", fmt.Sprintf("(JExpr (XLog (XCall (XVar %s) [%s])))", cstr("RF"), a.coq)}}
+			case 1:
+				return []node{{"log(RG(" + a.js + "));", fmt.Sprintf("(JExpr (XLog (XCall (XVar %s) [%s])))", cstr("RG"), a.coq)}}
+			default:
+				return []node{{"log(RH(" + a.js + "));", fmt.Sprintf("(JExpr (XLog (XCall (XVar %s) [%s])))", cstr("RH"), a.coq)}}
+			}
+		case 3:
+			// apply with an array-like object that is not an Array (15.3.4.3: any object with a length)
+			g.Stats["apply-array-like"]++
+			a, b := g.num(sc, 1), g.num(sc, 1)
+			n := r.Intn(3)
+			fields := []string{fmt.Sprintf("(%s, XLit (WNum %d))", cstr("length"), n)}
+			jsf := []string{fmt.Sprintf("length: %d", n)}
+			if r.Intn(4) > 0 {
+				fields = append(fields, fmt.Sprintf("(%s, %s)", cstr("0"), a.coq))
+				jsf = append(jsf, "0: "+a.js)
+			}
+			if r.Intn(3) > 0 {
+				fields = append(fields, fmt.Sprintf("(%s, %s)", cstr("1"), b.coq))
+				jsf = append(jsf, "1: "+b.js)
+			}
+			return []node{{"log(PA.apply(undefined, {" + strings.Join(jsf, ", ") + "}));",
+				fmt.Sprintf("(JExpr (XLog (XMCall (XVar %s) %s [XLit WUndef; XObj [%s]])))", cstr("PA"), cstr("apply"), strings.Join(fields, "; "))}}
+		case 4:
+			// the arguments object reached only through a direct eval (the function text never mentions it), still
+			// aliased to the parameters; a hoisted var with the function's own name shadows the function (10.5)
+			g.Stats["eval-arguments-ownname"]++
+			a := g.num(sc, 1)
+			switch r.Intn(4) {
+			case 0:
+				return []node{{"log(EA(" + a.js + "));", fmt.Sprintf("(JExpr (XLog (XCall (XVar %s) [%s])))", cstr("EA"), a.coq)}}
+			case 1:
+				return []node{{"log(EL(" + a.js + ", 2, 3));", fmt.Sprintf("(JExpr (XLog (XCall (XVar %s) [%s; XLit (WNum 2); XLit (WNum 3)])))", cstr("EL"), a.coq)}}
+			case 2:
+				return []node{{"log(SH());", fmt.Sprintf("(JExpr (XLog (XCall (XVar %s) [])))", cstr("SH"))}}
+			default:
+				return []node{{"log(SH3());", fmt.Sprintf("(JExpr (XLog (XCall (XVar %s) [])))", cstr("SH3"))}}
+			}
+		case 1:
+			// a primitive this value: every call (plain, through call/apply, through a bound function) gets its own
+			// fresh wrapper object (10.4.3); state left on one wrapper is not seen by the next call
+			g.Stats["primitive-this"]++
+			prims := [][2]string{{"5", "(XLit (WNum 5))"}, {"true", "(XLit (WBool true))"}, {"\"s\"", "(XLit (WStr " + cstr("s") + "))"}, {"0", "(XLit (WNum 0))"}}
+			p := prims[r.Intn(len(prims))]
+			pt := "(XVar " + cstr("PT") + ")"
+			var out []node
+			if r.Intn(2) == 0 {
+				out = append(out, node{"var pb = PT.bind(" + p[0] + ", 1);", fmt.Sprintf("(JVar %s (Some (XMCall %s %s [%s; XLit (WNum 1)])))", cstr("pb"), pt, cstr("bind"), p[1])},
+					node{"log(pb() === pb());", fmt.Sprintf("(JExpr (XLog (XBin PSeq (XCall (XVar %s) []) (XCall (XVar %s) []))))", cstr("pb"), cstr("pb"))})
+			}
+			out = append(out, node{"log(PT.call(" + p[0] + ", 2) === PT.call(" + p[0] + ", 3));",
+				fmt.Sprintf("(JExpr (XLog (XBin PSeq (XMCall %s %s [%s; XLit (WNum 2)]) (XMCall %s %s [%s; XLit (WNum 3)]))))", pt, cstr("call"), p[1], pt, cstr("call"), p[1])})
+			return out
+		}
 		// a call whose callee is unresolvable: the ReferenceError comes before the argument is evaluated
 		g.Stats["call-unresolvable"]++
 		a := g.num(sc, 1)
@@ -587,6 +673,23 @@ func (g *Gen) stmt(sc *scope, labs []lab, loopDepth int, inLoop bool, ind string
 			g.Stats["forin"]++
 			o := g.pick(sc.iters)
 			inner := block(g.list(sc, 1+r.Intn(2), labs, loopDepth+1, true, in2), in2)
+			if r.Intn(3) == 0 {
+				// the target is a member expression whose object expression has a visible effect: it is evaluated
+				// anew for every visited property (12.6.4), so the effect happens once per property
+				g.Stats["forin-member-target"]++
+				var tjs, tcoq string
+				switch r.Intn(3) {
+				case 0:
+					tjs, tcoq = "sk", "(XVar "+cstr("sk")+")"
+				case 1:
+					n := r.Intn(9)
+					tjs, tcoq = fmt.Sprintf("(log(%d), sk)", n), fmt.Sprintf("(XComma (XLog (XLit (WNum %d))) (XVar %s))", n, cstr("sk"))
+				default:
+					tjs, tcoq = "(i3 = i3 + 1, sk)", fmt.Sprintf("(XComma (XAssign %s (XBin PAdd (XVar %s) (XLit (WNum 1)))) (XVar %s))", cstr("i3"), cstr("i3"), cstr("sk"))
+				}
+				body := node{"{ log(sk.kk); " + inner.js + " }", "(JBlock [JExpr (XLog (XGet (XVar " + cstr("sk") + ") " + cstr("kk") + ")); " + inner.coq + "])"}
+				return []node{{"for (" + tjs + ".kk in " + o + ") " + body.js, fmt.Sprintf("(JForInSet %s %s (XVar %s) %s)", tcoq, cstr("kk"), cstr(o), body.coq)}}
+			}
 			// the loop variable is a (hoisted) var of the enclosing function / program
 			body := node{"{ log(k); " + inner.js + " }", "(JBlock [JExpr (XLog (XVar " + cstr("k") + ")); " + inner.coq + "])"}
 			return []node{{"for (var k in " + o + ") " + body.js, fmt.Sprintf("(JForIn %s (XVar %s) %s)", cstr("k"), cstr(o), body.coq)}}
@@ -754,6 +857,32 @@ func Generate(r *rand.Rand, budget int) Program {
 		node{"function FI() { this.b = 2; this.a = 1; }", "(JFunDecl " + cstr("FI") + " [] [JExpr (XSet XThis " + cstr("b") + " (XLit (WNum 2))); JExpr (XSet XThis " + cstr("a") + " (XLit (WNum 1)))])"},
 		node{"FI.prototype.z = 9;", "(JExpr (XSet (XGet (XVar " + cstr("FI") + ") " + cstr("prototype") + ") " + cstr("z") + " (XLit (WNum 9))))"},
 		node{"var it2 = new FI();", "(JVar " + cstr("it2") + " (Some (XNew (XVar " + cstr("FI") + ") [])))"})
+	stmts = append(stmts, node{"var sk = {};", "(JVar " + cstr("sk") + " (Some (XObj [])))"},
+		node{"var pb;", "(JVar " + cstr("pb") + " None)"},
+		node{"function RF(a) { var x = a; try { return x; } finally { x = a + 1; log(x); } }",
+			fmt.Sprintf("(JFunDecl %s [%s] [JVar %s (Some (XVar %s)); JTry [JReturn (Some (XVar %s))] None (Some [JExpr (XAssign %s (XBin PAdd (XVar %s) (XLit (WNum 1)))); JExpr (XLog (XVar %s))])])",
+				cstr("RF"), cstr("a"), cstr("x"), cstr("a"), cstr("x"), cstr("x"), cstr("a"), cstr("x"))},
+		node{"function RG(a) { try { return nowhere2; } catch (e) { log(a); return 7; } finally { log(8); } }",
+			fmt.Sprintf("(JFunDecl %s [%s] [JTry [JReturn (Some (XVar %s))] (Some (%s, [JExpr (XLog (XVar %s)); JReturn (Some (XLit (WNum 7)))])) (Some [JExpr (XLog (XLit (WNum 8)))])])",
+				cstr("RG"), cstr("a"), cstr("nowhere2"), cstr("e"), cstr("a"))},
+		node{"function RH(a) { var o = { p: a }; try { return o.p; } finally { o.p = 9; log(o.p); } }",
+			fmt.Sprintf("(JFunDecl %s [%s] [JVar %s (Some (XObj [(%s, XVar %s)])); JTry [JReturn (Some (XGet (XVar %s) %s))] None (Some [JExpr (XSet (XVar %s) %s (XLit (WNum 9))); JExpr (XLog (XGet (XVar %s) %s))])])",
+				cstr("RH"), cstr("a"), cstr("o"), cstr("p"), cstr("a"), cstr("o"), cstr("p"), cstr("o"), cstr("p"), cstr("o"), cstr("p"))},
+		node{"function EA(p) { p = p + 1; return eval(\"arguments[0];\"); }",
+			fmt.Sprintf("(JFunDecl %s [%s] [JExpr (XAssign %s (XBin PAdd (XVar %s) (XLit (WNum 1)))); JReturn (Some (XEval true [JExpr (XIdx (XVar %s) (XLit (WNum 0)))]))])",
+				cstr("EA"), cstr("p"), cstr("p"), cstr("p"), cstr("arguments"))},
+		node{"function EL(p) { return eval(\"arguments.length;\"); }",
+			fmt.Sprintf("(JFunDecl %s [%s] [JReturn (Some (XEval true [JExpr (XGet (XVar %s) %s)]))])", cstr("EL"), cstr("p"), cstr("arguments"), cstr("length"))},
+		node{"function SH() { var SH; return typeof SH; }",
+			fmt.Sprintf("(JFunDecl %s [] [JVar %s None; JReturn (Some (XTypeof (XVar %s)))])", cstr("SH"), cstr("SH"), cstr("SH"))},
+		node{"function SH3() { eval(\"var SH3;\"); return typeof SH3; }",
+			fmt.Sprintf("(JFunDecl %s [] [JExpr (XEval true [JVar %s None]); JReturn (Some (XTypeof (XVar %s)))])", cstr("SH3"), cstr("SH3"), cstr("SH3"))},
+		node{"function PA(u, v) { log(arguments.length); log(u); return v; }",
+			fmt.Sprintf("(JFunDecl %s [%s; %s] [JExpr (XLog (XGet (XVar %s) %s)); JExpr (XLog (XVar %s)); JReturn (Some (XVar %s))])",
+				cstr("PA"), cstr("u"), cstr("v"), cstr("arguments"), cstr("length"), cstr("u"), cstr("v"))},
+		node{"function PT(v) { var s = this.seen; this.seen = v; log(s); log(typeof this); return this; }",
+			fmt.Sprintf("(JFunDecl %s [%s] [JVar %s (Some (XGet XThis %s)); JExpr (XSet XThis %s (XVar %s)); JExpr (XLog (XVar %s)); JExpr (XLog (XTypeof XThis)); JReturn (Some XThis)])",
+				cstr("PT"), cstr("v"), cstr("s"), cstr("seen"), cstr("seen"), cstr("v"), cstr("s"))})
 	top.iters = []string{"it1", "it2"}
 	stmts = append(stmts,
 		node{"var w1 = { g0: 10, g2: 30 };", "(JVar " + cstr("w1") + " (Some (XObj [(" + cstr("g0") + ", XLit (WNum 10)); (" + cstr("g2") + ", XLit (WNum 30))])))"},
@@ -865,6 +994,21 @@ func Generate(r *rand.Rand, budget int) Program {
 				g.Stats["bind"]++
 			}
 		}
+	}
+	// a battery of the fixed-shape templates at top level (always executed), in a third of the programs
+	if r.Intn(3) == 0 {
+		g.Stats["template-battery"]++
+		lit := func(n int) (string, string) { return fmt.Sprintf("%d", n), fmt.Sprintf("(XLit (WNum %d))", n) }
+		call := func(fn string, args ...int) node {
+			js, cq := make([]string, len(args)), make([]string, len(args))
+			for i, a := range args {
+				js[i], cq[i] = lit(a)
+			}
+			return node{"log(" + fn + "(" + strings.Join(js, ", ") + "));", fmt.Sprintf("(JExpr (XLog (XCall (XVar %s) [%s])))", cstr(fn), strings.Join(cq, "; "))}
+		}
+		battery := []node{call("EA", r.Intn(9)), call("EL", 1, 2, 3), call("SH"), call("SH3"), call("RF", r.Intn(9)), call("RG", r.Intn(9)), call("RH", r.Intn(9)), call("EA", 4, 5)}
+		r.Shuffle(len(battery), func(i, j int) { battery[i], battery[j] = battery[j], battery[i] })
+		stmts = append(stmts, battery[:3+r.Intn(3)]...)
 	}
 	stmts = append(stmts, g.list(top, 3+r.Intn(5), nil, 0, false, "")...)
 	// epilogue: dump the observable global state (half of the programs; the others end on
